@@ -152,11 +152,20 @@ func (e *Exec) wrF(st *State, fam string, ref *Term) wrState {
 func (e *Exec) writeN(st *State, ref *Term, src, soff, n *Term) (written *Term, err *IfaceV) {
 	w := e.wr(st, ref)
 	room := Ite(BVUle(w.n, w.limit), BVSub(w.limit, w.n), BVConst(0, 64))
-	ok := BVUle(n, room)
-	written = Ite(ok, n, room)
+	fits := BVUle(n, room)
+	// besides the point from which the writer fails for good (its limit), any single write may fail on its own (a
+	// timeout, a temporary condition) after writing only part of its bytes, and the next one may succeed again
+	e.note("a transport write may also fail transiently (one write fails, possibly after a partial write; later writes may succeed)")
+	transient := And(Fresh("wr.transient", SBool), Not(e.ghGet(st, "wr.reliable", SBool, ref)))
+	part := Fresh("wr.partial", BV(64))
+	st.AssumeFact(And(BVUle(part, n), BVUle(part, room)))
+	tT, tR := Fresh("wr.transient.tid", SInt), Fresh("wr.transient.ref", SInt)
+	st.AssumeFact(Not(Eq(tT, IntConst(0))))
+	ok := And(fits, Not(transient))
+	written = Ite(ok, n, Ite(fits, part, room))
 	e.ghSet(st, "wr.data", byteArr, ref, ArrayCopy(w.data, w.n, src, soff, written))
 	e.ghSet(st, "wr.len", BV(64), ref, BVAdd(w.n, written))
-	werr := &IfaceV{Tid: w.errT, Ref: w.errR}
+	werr := &IfaceV{Tid: Ite(fits, tT, w.errT), Ref: Ite(fits, tR, w.errR)}
 	err = &IfaceV{Tid: Ite(ok, IntConst(0), werr.Tid), Ref: Ite(ok, IntConst(0), werr.Ref)}
 	e.ioerrRecord(st, Not(ok), werr)
 	return
@@ -344,6 +353,16 @@ func init() {
 		term := &IfaceV{Tid: r.errT, Ref: r.errR}
 		e.ioerrRecord(st, Not(ok), term)
 		return one(st, sl, &IfaceV{Tid: Ite(ok, IntConst(0), term.Tid), Ref: Ite(ok, IntConst(0), term.Ref)})
+	}
+	// bufio.NewReader / NewWriter: a new buffered reader (4096-byte buffer) or writer; its ghost stream is its own
+	models["bufio.NewReader"] = func(e *Exec, st *State, fr *Frame, fn *ssa.Function, args []Value, pos token.Pos) []Outcome {
+		r := st.NewRef()
+		e.ghSet(st, "rd.bufsize", BV(64), r, BVConst(4096, 64))
+		return one(st, &PtrV{Kind: PObj, Base: r, Root: fn.Signature.Results().At(0).Type().(*types.Pointer).Elem()})
+	}
+	models["bufio.NewWriter"] = func(e *Exec, st *State, fr *Frame, fn *ssa.Function, args []Value, pos token.Pos) []Outcome {
+		r := st.NewRef()
+		return one(st, &PtrV{Kind: PObj, Base: r, Root: fn.Signature.Results().At(0).Type().(*types.Pointer).Elem()})
 	}
 	models["bufio.NewReaderSize"] = func(e *Exec, st *State, fr *Frame, fn *ssa.Function, args []Value, pos token.Pos) []Outcome {
 		// a new reader with a buffer of max(size, 16) bytes (bufio's minimum); its stream is its own
